@@ -1137,7 +1137,9 @@ tp_shutdown(tp_p tp) {
 	for (size_t i = 0; i < tp->s.threads_max; i ++) {
 		if (0 == tpt_is_running(&tp->threads[i]))
 			continue;
-		tpt_msg_send(&tp->threads[i], NULL, 0,
+		/* If message can not be queued (queue is full): set state
+		 * directly, thread will see it after process queued messages. */
+		tpt_msg_send(&tp->threads[i], NULL, TP_MSG_F_FAIL_DIRECT,
 		    tpt_msg_shutdown_cb, NULL);
 	}
 }
